@@ -245,12 +245,36 @@ func unfString(e TyEnv, t *Ty) (s string) {
 // graphs: alias chains and cycles, isomorphic recursive types, unrolled copies,
 // forwards and typed cuts between differently spelled types, explicit polarities.
 func TypeStress(intn func(int) int) string {
-	var sb strings.Builder
+	return TypeStressFamily(intn, 1)[0]
+}
+
+// TypeStressFamily returns n programs that share mode, labels and all function and process
+// declarations but define the type names A and B differently: the sequence a cache of type
+// facts that survives from one program to the next would get wrong (C19).
+func TypeStressFamily(intn func(int) int, n int) []string {
 	modes := []string{"", "", "lin ", "aff ", "mul ", "rep "}
 	m := modes[intn(len(modes))]
 	op := []string{"+", "&"}[intn(2)]
 	lbl := []string{"l", "a", "z"}[intn(3)]
-	shape := intn(8)
+	var heads []string
+	for i := 0; i < n; i++ {
+		heads = append(heads, typeStressHead(intn, m, op, lbl))
+	}
+	tail := typeStressTail(intn, m, lbl)
+	var out []string
+	for _, h := range heads {
+		if strings.HasSuffix(h, "\x00") {
+			out = append(out, strings.TrimSuffix(h, "\x00")) // a complete program of its own
+		} else {
+			out = append(out, h+tail)
+		}
+	}
+	return out
+}
+
+func typeStressHead(intn func(int) int, m, op, lbl string) string {
+	var sb strings.Builder
+	shape := intn(9)
 	// base recursive (or not) type A and a partner B
 	switch shape {
 	case 0: // two isomorphic recursive types
@@ -274,15 +298,26 @@ func TypeStress(intn func(int) int) string {
 		}
 	case 5: // mutually recursive pair vs single recursive
 		fmt.Fprintf(&sb, "type A = %s%s{%s : B}\ntype B = %s%s{%s : A}\n", m, op, lbl, m, op, lbl)
-	default: // recursive types of period two, to be compared out of phase (a name never meets a name)
+	case 6, 7: // recursive types of period two, to be compared out of phase (a name never meets a name)
 		bin := []string{"*", "-*"}[intn(2)]
 		fmt.Fprintf(&sb, "type A = %s1 %s (1 %s A)\ntype B = %s1 %s (1 %s B)\n", m, bin, bin, m, bin, bin)
 		if shape == 7 {
 			fmt.Fprintf(&sb, "let f(x : %s1 %s B) : %sA = fwd self x\n", m, bin, m)
 			fmt.Fprintf(&sb, "let g(x : %s1 %s (1 %s (1 %s A))) : %sB = y : %s1 %s B <- new fwd self x; fwd self y\n", m, bin, bin, bin, m, m, bin)
-			return sb.String()
+			return sb.String() + "\x00"
 		}
+	case 8: // two plain structural types: equal or different, same polarity
+		bodies := []string{"1 * 1", "1 * 1", "+{" + lbl + " : 1}", "+{" + lbl + " : 1, q : 1}", "1 * (1 * 1)", "1"}
+		if op == "&" {
+			bodies = []string{"1 -* 1", "1 -* 1", "&{" + lbl + " : 1}", "&{" + lbl + " : 1, q : 1}", "1 -* (1 -* 1)"}
+		}
+		fmt.Fprintf(&sb, "type A = %s%s\ntype B = %s%s\n", m, bodies[intn(len(bodies))], m, bodies[intn(len(bodies))])
 	}
+	return sb.String()
+}
+
+func typeStressTail(intn func(int) int, m, lbl string) string {
+	var sb strings.Builder
 	t1 := []string{"A", "B"}[intn(2)]
 	t2 := []string{"A", "B"}[intn(2)]
 	pol := []string{"", "+", "-"}
